@@ -103,6 +103,44 @@ func init() {
 					}
 				}
 			})
+			// the special-scheme table configured (file not special, added schemes, a non-numeric default port): every hostless
+			// and host-carrying start x every pair and triple of protocol setter calls (states such as "scheme file without a
+			// host" exist only under these configurations), then one call of every other setter
+			{
+				starts := []string{"x:/some/path", "x:opaque", "x:/p?q#f", "a:/", "sc:/x", "sc://h/p", "http://h/p", "file:///x", "file://h/x", "x:", "sc://u:p@h:1/"}
+				protos := []string{"file", "y", "http", "sc", "https", "x", "gopher", "a"}
+				var seqs [][]Op
+				for _, a := range protos {
+					for _, b := range protos {
+						seqs = append(seqs, []Op{{K: "s", W: 0, A: a}, {K: "s", W: 0, A: b}})
+						for _, w := range []int{3, 4, 5, 6} {
+							seqs = append(seqs, []Op{{K: "s", W: 0, A: a}, {K: "s", W: w, A: []string{"", "", "", "h:1", "g", "81", "/C|/x"}[w]}, {K: "s", W: 0, A: b}})
+						}
+					}
+				}
+				var scfgs []*Cfg
+				for _, n := range []string{"specialX", "specialAdd", "specialMany", "specialX+lax", "specialX+skipTrailSlash"} {
+					if cf := cfgFromDesc(n); cf != nil {
+						scfgs = append(scfgs, cf)
+					}
+				}
+				c.Pool.Run(len(scfgs)*len(starts)*len(seqs), func(d *Driver, i int) {
+					cfg := scfgs[i%len(scfgs)]
+					j := i / len(scfgs)
+					input, ops := starts[j%len(starts)], seqs[j/len(starts)]
+					_, steps, start := c.cmpHist(d, cfg, nil, input, ops, allFields, "protocol-histories", i)
+					hc := histCase{cfg, nil, input, ops, "protocol-histories", i}
+					if bad(start) {
+						c.Report(Finding{Class: "violation", What: "parse call did not return a URL or an error: " + start.String(), Case: hc.Case(-1)})
+					}
+					for k, s := range steps {
+						if len(s.Extra) > 0 && s.Extra[0] == "!" {
+							c.Report(Finding{Class: "violation", What: "operation panicked: " + ops[k].String(), Case: hc.Case(k)})
+							break
+						}
+					}
+				})
+			}
 			// profiles
 			c.Pool.Run(15000*c.Scale, func(d *Driver, i int) {
 				r := rng.Fork(300000 + i)
